@@ -31,6 +31,9 @@ type Term struct {
 
 	lin   *linForm
 	lanes []*Term // for op == "lanes": 8-bit terms, little end first
+
+	vars     []int // ids of the declared constants this term depends on (sorted); see varsOf
+	varsDone bool
 }
 
 func (t *Term) String() string { return t.name }
@@ -888,4 +891,49 @@ func fpToBits(v *Term) (bits *Term, side *Term) {
 	b.args = []*Term{v}
 	s := mkOp("Bool", 0, "bitsax", 0, fmt.Sprintf("(= ((_ to_fp 11 53) %s) %s)", b, v), b, v)
 	return b, s
+}
+
+// varsOf returns the sorted ids of the declared constants t depends on (cached).
+func varsOf(t *Term) []int {
+	if t.varsDone {
+		return t.vars
+	}
+	t.varsDone = true
+	if t.isConst {
+		return nil
+	}
+	set := map[int]bool{}
+	add := func(x *Term) {
+		for _, v := range varsOf(x) {
+			set[v] = true
+		}
+	}
+	switch {
+	case t.op == "var":
+		set[t.id] = true
+	case t.op == "f64bits" && len(t.args) == 1 && T.decls[t.name] == t:
+		// the bits constant of a float term (fp mode): a variable of its own, tied to its float by
+		// a side constraint that is part of the path condition
+		set[t.id] = true
+		add(t.args[0])
+	case t.op == "lin" && t.lin != nil:
+		for _, a := range t.lin.atoms {
+			add(a.t)
+		}
+	case t.op == "lanes":
+		for _, l := range t.lanes {
+			add(l)
+		}
+	default:
+		for _, a := range t.args {
+			add(a)
+		}
+	}
+	out := make([]int, 0, len(set))
+	for v := range set {
+		out = append(out, v)
+	}
+	sort.Ints(out)
+	t.vars = out
+	return out
 }
